@@ -60,6 +60,8 @@ type Prog struct {
 	resolving       map[*ssa.Function]bool
 	staticCallersOf map[*ssa.Function][]ssa.CallInstruction
 	wrapMemo        map[*ssa.Function]*wrapInfo
+	names           map[string]string
+	evHelper        map[*ssa.Function]int
 }
 
 // Load type-checks and builds SSA for the three library packages and all
@@ -268,32 +270,39 @@ func (p *Prog) FuncKey(fn *ssa.Function) string {
 // Func finds a package-level function or method by package and name, e.g.
 // ("client","ParseLine") or ("client","(*Conn).Close").
 func (p *Prog) Func(pkg *ssa.Package, name string) *ssa.Function {
-	if strings.HasPrefix(name, "(") {
-		i := strings.Index(name, ").")
-		recv, m := name[1:i], name[i+2:]
-		ptr := strings.HasPrefix(recv, "*")
-		recv = strings.TrimPrefix(recv, "*")
-		tn := pkg.Type(recv)
-		if tn == nil {
-			return nil
-		}
-		var t types.Type = tn.Type()
-		if ptr {
-			t = types.NewPointer(t)
-		}
-		sel := p.SSA.MethodSets.MethodSet(t).Lookup(pkg.Pkg, m)
-		if sel == nil {
-			return nil
-		}
-		return p.SSA.MethodValue(sel)
+	if f := p.funcByName(pkg, name); f != nil {
+		return f
 	}
-	return pkg.Func(name)
+	// an unexported function or method that was renamed: find it by role
+	if f := p.funcByRole(name); f != nil {
+		return f
+	}
+	if strings.HasPrefix(name, "(") {
+		// method of a renamed unexported type: translate the receiver name
+		i := strings.Index(name, ").")
+		recv := strings.TrimPrefix(name[1:i], "*")
+		if act := p.nm(recv); act != recv {
+			star := ""
+			if strings.HasPrefix(name[1:i], "*") {
+				star = "*"
+			}
+			if f := p.funcByName(pkg, "("+star+act+")."+name[i+2:]); f != nil {
+				return f
+			}
+		}
+	} else if act := p.nm(name); act != name {
+		return pkg.Func(act)
+	}
+	return nil
 }
 
 // Named returns the named type pkg.name, or nil.
 func (p *Prog) Named(pkg *ssa.Package, name string) *types.Named {
 	tn := pkg.Type(name)
 	if tn == nil {
+		if n := p.typeByRole(name); n != nil && n.Obj().Pkg() == pkg.Pkg {
+			return n
+		}
 		return nil
 	}
 	n, _ := tn.Type().(*types.Named)
@@ -315,5 +324,6 @@ func (p *Prog) FieldVar(pkg *ssa.Package, typ, field string) *types.Var {
 			return st.Field(i)
 		}
 	}
-	return nil
+	// an unexported field that was renamed: find it by role
+	return p.fieldByRole(typ, field)
 }
